@@ -301,6 +301,28 @@ def main(argv):
                         nviol += 1
                         ck.violation("field:m", "m: flux density at (%.9g, %.9g) is (%.9g, %.9g), the curl of the interpolant is (%.9g, %.9g)"
                                      % (x, y, Bx, By, gy / u, -gx / u), dict(files=run.files(), point=(x, y)))
+                if len(inside) == 1 and cat in ("centroid", "pair") and kind == "m" and len(got) >= 11 and not getattr(p, "freq", 0.0):
+                    # "scaled by the element's material ... material data returned are those of the block containing the point":
+                    # linear, unmagnetised materials without on-edge laminations: mu = fill*mu + (1 - fill), H = B/(mu*mu0), w = B.H/2
+                    lab = p.labels[M.lbl[inside[0]]]
+                    mat = p.blockprops[lab["block"]]
+                    if not mat.get("BH") and not mat.get("H_c") and mat.get("LamType", 0) == 0 and not lab.get("ext") and p.ptype == "planar":
+                        t_ = mat.get("LamFill", 1.0)
+                        m1 = mat.get("Mu_x", 1.0) * t_ + (1 - t_); m2 = mat.get("Mu_y", 1.0) * t_ + (1 - t_)
+                        r_ = lambda z: z.real if isinstance(z, complex) else z
+                        Bx, By, W_, Hx, Hy, g1, g2 = r_(got[1]), r_(got[2]), r_(got[4]), r_(got[5]), r_(got[6]), r_(got[9]), r_(got[10])
+                        MU0 = 4e-7 * math.pi
+                        stats["material_scaled_compared"] = stats.get("material_scaled_compared", 0) + 1
+                        bs = max(math.hypot(Bx, By), 1e-300)
+                        if (not (abs(g1 - m1) <= 1e-12 * m1) or not (abs(g2 - m2) <= 1e-12 * m2)) and nviol < 3:
+                            nviol += 1
+                            ck.violation("material:m", "m: permeabilities at (%.9g, %.9g) are (%.12g, %.12g), the block containing the point has (%.12g, %.12g)"
+                                         % (x, y, g1, g2, m1, m2), dict(files=run.files(), point=(x, y)))
+                        elif (not (math.hypot(Hx - Bx / (m1 * MU0), Hy - By / (m2 * MU0)) <= 1e-9 * bs / (min(m1, m2) * MU0))
+                              or not (abs(W_ - 0.5 * (Bx * Hx + By * Hy)) <= 1e-9 * 0.5 * bs * bs / (min(m1, m2) * MU0))) and nviol < 3:
+                            nviol += 1
+                            ck.violation("scaled-field:m", "m: at (%.9g, %.9g) B = (%.9g, %.9g), H = (%.9g, %.9g), energy density %.9g: not B/(mu*mu0) with mu = (%.6g, %.6g) / not B.H/2"
+                                         % (x, y, Bx, By, Hx, Hy, W_, m1, m2), dict(files=run.files(), point=(x, y)))
                 if len(inside) == 1 and cat in ("centroid", "pair") and kind in "eh":
                     gx, gy = M.gradient(inside[0])
                     lab = p.labels[M.lbl[inside[0]]]
@@ -312,6 +334,21 @@ def main(argv):
                         nviol += 1
                         ck.violation("field:%s" % kind, "%s: field at (%.9g, %.9g) is (%.9g, %.9g), minus the gradient of the interpolant is (%.9g, %.9g)"
                                      % (kind, x, y, Ex, Ey, -gx / u, -gy / u), dict(files=run.files(), point=(x, y)))
+                    # the flux density is the field scaled by the block's material (constant materials, outside external regions)
+                    if not mat.get("TK") and not lab.get("ext") and len(got) >= 7:
+                        sx = mat.get("ex" if kind == "e" else "Kx", 1.0) * (8.85418781762e-12 if kind == "e" else 1.0)
+                        sy = mat.get("ey" if kind == "e" else "Ky", 1.0) * (8.85418781762e-12 if kind == "e" else 1.0)
+                        Dx, Dy = got[1], got[2]
+                        stats["material_scaled_compared"] = stats.get("material_scaled_compared", 0) + 1
+                        ds_ = max(math.hypot(sx * Ex, sy * Ey), 1e-300)
+                        bad = not (math.hypot(Dx - sx * Ex, Dy - sy * Ey) <= 1e-12 * ds_ + 1e-300)
+                        if kind == "e" and len(got) >= 8:
+                            bad = bad or not (abs(got[7] - 0.5 * (Dx * Ex + Dy * Ey)) <= 1e-12 * 0.5 * ds_ * max(math.hypot(Ex, Ey), 1e-300) + 1e-300)
+                        if bad and nviol < 3:
+                            nviol += 1
+                            ck.violation("scaled-field:%s" % kind, "%s: at (%.9g, %.9g) the flux density is (%.12g, %.12g), the field (%.12g, %.12g) scaled by the block's material gives (%.12g, %.12g)%s"
+                                         % (kind, x, y, Dx, Dy, Ex, Ey, sx * Ex, sy * Ey, "" if kind == "h" else "; energy density %.12g vs D.E/2 = %.12g" % (got[7], 0.5 * (Dx * Ex + Dy * Ey))),
+                                         dict(files=run.files(), point=(x, y)))
                     kx = mat.get("ex" if kind == "e" else "Kx", 1.0); ky = mat.get("ey" if kind == "e" else "Ky", 1.0)
                     if (abs(got[5] - kx) > 1e-12 * kx or abs(got[6] - ky) > 1e-12 * ky) and nviol < 3:
                         nviol += 1
